@@ -655,6 +655,22 @@ impl Prop for C16 {
                 _ => *rng.pick(alpha),
             })
             .collect();
+        // long runs of what the helper passes over (several machine words of any width), then
+        // something else: word-at-a-time loops are decided there
+        let mut data = data;
+        if rng.chance(1, 5) {
+            let run_alpha: &[u8] = match helper {
+                0 => b"  \t",
+                1 => b"\r\n",
+                2 => b"aap\x80 ",
+                _ => b"ap ",
+            };
+            let at = rng.below(data.len() + 1);
+            let n = 3 + rng.small(40);
+            let run: Vec<u8> = (0..n).map(|_| *rng.pick(run_alpha)).collect();
+            data.splice(at..at, run);
+        }
+        let len = data.len();
         let offset = if rng.chance(1, 10) {
             len + rng.below(3)
         } else {
@@ -1224,6 +1240,16 @@ impl Prop for C16Loop {
                 _ => *rng.pick(b"   \t\t\r\n\n\naap"),
             })
             .collect();
+        let mut data = data;
+        for _ in 0..rng.below(4) {
+            // long runs of blanks / line ends / ordinary bytes
+            let run_alpha: &[u8] = *rng.pick(&[&b"  \t"[..], b"\n", b"\r\n", b"aap"]);
+            let at = rng.below(data.len() + 1);
+            let n = 3 + rng.small(40);
+            let run: Vec<u8> = (0..n).map(|_| *rng.pick(run_alpha)).collect();
+            data.splice(at..at, run);
+        }
+        let len = data.len();
         let n = rng.range(2, 60);
         let steps = (0..n)
             .map(|_| {
